@@ -189,6 +189,8 @@ def run(ctx):
     ctx.floor('count computations from file sizes', n, 6)
     # wind
     c13.check_windcount(ctx, 'R-WINDCOUNT')
+    ctx.rule('R-SCANEOF', 'record scans driven by record_size can leave at end of file (RecordFile.next() is silent there): a cut file raises instead of hanging')
+    c13.check_scan_eof(ctx, CAMX + 'wind/Memmap.py', 'wind.__init__')
     # bpch: mapped shape = (itemcount,)
     bm = ctx.src.mod('geoschemfiles/_bpch.py')
     bi = bm.func('bpch1.__init__')
